@@ -55,6 +55,10 @@ FAMILIES = {
     'C17': [
         {'family': 'reconnect', 'knobs': {}, 'quick': 400, 'thorough': 6000},
     ],
+    'C20': [
+        {'family': 'adapters', 'knobs': {'version': 'reactivex'}, 'quick': 300, 'thorough': 5000},
+        {'family': 'adapters', 'knobs': {'version': 'rx'}, 'quick': 300, 'thorough': 5000, 'first': 100000},
+    ],
     'C10': [
         {'family': 'core', 'knobs': {'p_cancel': 0.15, 'p_error': 0.15}, 'quick': 400, 'thorough': 6000},
     ],
